@@ -548,7 +548,7 @@ class Build:
             for r2 in R:
                 if (R[r1]["rank"], R[r1]["comm"]) == (R[r2]["rank"], R[r2]["comm"]) and R[r1]["seq"] < R[r2]["seq"] \
                         and M[r1]["cap"] * M[r1]["tsize"] < self.thr[0] <= M[r2]["cap"] * M[r2]["tsize"] \
-                        and any(mailbox(self, M[x]) == "small" and Explorer.compatible(S[x], R[r1]) and Explorer.compatible(S[x], R[r2]) for x in S):
+                        and any(eager_size(self, M[x]) and Explorer.compatible(S[x], R[r1]) and Explorer.compatible(S[x], R[r2]) for x in S):
                     return "recv-side"
         return None
 
@@ -567,6 +567,12 @@ class Build:
 # ---------------------------------------------------------------------------------------------
 # The validity predicate
 MULTI = ("waitall", "testall", "waitsome", "testsome")
+
+
+def eager_size(b, m):
+    """is the message looked for in the 'large' mailbox FIRST by its sender (every mode, Ssend included, when it is smaller than
+    smpi/async-small-thresh) ?"""
+    return b.thr[0] > 0 and m["nbytes"] < b.thr[0]
 
 
 def mailbox(b, m):
@@ -648,6 +654,7 @@ def judge(b, res, oc, E):
 
     # ---- 1. status source and tag are legal and compatible with the pattern; identification of the message
     classes = {}
+    nonfatal = len(oc.violations)      # violations so far do not prevent the identification of the messages
     for m in M:
         k = m["k"]
         o = obs[k]
@@ -657,6 +664,25 @@ def judge(b, res, oc, E):
         if o["kind"] in ("testall", "testsome", "waitsome") and o["src"] == K.ANY_SOURCE and o["tag"] == K.ANY_TAG:
             bad(o["kind"] + ":empty-status", "rank %d, MPI_%s (call #%d of the loop) returned an EMPTY status (source MPI_ANY_SOURCE, tag MPI_ANY_TAG) "
                 "for%s" % (m["d"], o["kind"].capitalize(), o["call"], b.show_pattern(k)))
+            continue
+        if m["selfmsg"] and o["kind"] == "sendrecv" and psrc is not None and not (isinstance(o["src"], int) and 0 <= o["src"] < len(members)
+                                                                                   and members[o["src"]] == psrc):
+            # MPI_Sendrecv with oneself names its source: report the wrong status and go on with the named source
+            bad("status:source:sendrecv:self", "rank %d, sendrecv for%s: status.MPI_SOURCE = %s instead of %d"
+                % (m["d"], b.show_pattern(k), o["src"], members.index(psrc)))
+            nonfatal += 1
+            tag_ = o["tag"] if ptag is None else ptag
+            if ptag is None and not (isinstance(tag_, int) and tag_ >= 0):
+                bad("status:tag:sendrecv:self", "rank %d, sendrecv for%s: status.MPI_TAG = %s" % (m["d"], b.show_pattern(k), tag_))
+                nonfatal += 1
+                tag_ = m["tag"]
+            classes.setdefault((m["d"], m["comm"], psrc, tag_), []).append(k)
+            continue
+        if m["selfmsg"] and o["kind"] == "sendrecv" and ptag is None and not (isinstance(o["tag"], int) and o["tag"] >= 0) \
+                and isinstance(o["src"], int) and 0 <= o["src"] < len(members):
+            bad("status:tag:sendrecv:self", "rank %d, sendrecv for%s: status.MPI_TAG = %s" % (m["d"], b.show_pattern(k), o["tag"]))
+            nonfatal += 1
+            classes.setdefault((m["d"], m["comm"], members[o["src"]], m["tag"]), []).append(k)
             continue
         if not (isinstance(o["src"], int) and 0 <= o["src"] < len(members)):
             bad("status:source:" + o["kind"] + selfs, "rank %d, %s for%s: status.MPI_SOURCE = %s is not a rank of the communicator %s"
@@ -670,7 +696,7 @@ def judge(b, res, oc, E):
             bad("status:tag:" + o["kind"], "rank %d, %s for%s: status.MPI_TAG = %s" % (m["d"], o["kind"], b.show_pattern(k), o["tag"]))
             continue
         classes.setdefault((m["d"], m["comm"], src, o["tag"]), []).append(k)
-    if oc.violations:
+    if len(oc.violations) > nonfatal:
         return
     crc = {}
     for p, (i, names) in b.crc_index.items():
@@ -717,7 +743,7 @@ def judge(b, res, oc, E):
                     ri_, rj_ = inv_[0]
                     sa_, sb_ = perm[rks.index(rj_)], perm[rks.index(ri_)]
                     cause = ("truncation-across-async-thresh" if obs[ri_]["cap"] * M[ri_]["tsize"] < b.thr[0] <= M[sa_]["nbytes"] else
-                             "two-mailboxes:recv-side" if (rbox(ri_), rbox(rj_), mailbox(b, M[sa_])) == ("small", "large", "small") else "other")
+                             "two-mailboxes:recv-side" if (rbox(ri_), rbox(rj_)) == ("small", "large") and eager_size(b, M[sa_]) else "other")
                     bad("overtaking:%s:same-envelope:recv-%s>%s:msg-%s>%s" % (cause, rbox(ri_), rbox(rj_), mailbox(b, M[sa_]), mailbox(b, M[sb_])),
                         "world rank %d sent the messages %s (in this order, all with tag %d, sizes %s bytes, modes %s) to world rank %d on communicator %s, "
                         "which posted the receives %s in this order (capacities %s bytes, kinds %s); they hold the messages %s: the order is not "
@@ -761,10 +787,18 @@ def judge(b, res, oc, E):
                 bad("trunc-spurious:" + kind, "%s: the message fits, but the call returned %s with status.MPI_ERROR = %s" % (where, rc, err))
         else:
             if truncated and rc != TRUNC:
-                bad(("trunc-rc:" if err == TRUNC else "trunc-missed:") + kind, "%s: oversized, but the call returned %s (status.MPI_ERROR = %s), "
+                bad(("trunc-rc:" if err == TRUNC else "trunc-missed:") + kind + (":self" if m["selfmsg"] else ""), "%s: oversized, but the call returned %s (status.MPI_ERROR = %s), "
                     "expected MPI_ERR_TRUNCATE = %s" % (where, rc, err, TRUNC))
             elif not truncated and rc != OK:
-                bad("trunc-spurious:" + kind if rc == TRUNC else "recv-rc:" + kind, "%s: the message fits, but the call returned %s" % (where, rc))
+                sticky = [x["k"] for x in M if x["k"] != s["k"] and x["nbytes"] > o["cap"] * m["tsize"] and b.thr[0] > 0
+                          and Explorer.compatible(b.sends[x["k"]], b.recvs[k])]
+                if rc == TRUNC and sticky:
+                    # Request::match_common marks the receive truncated while it EXAMINES an oversized candidate that is then refused
+                    # (not the next one of its tag: its predecessor waits in the other mailbox); the mark is never cleared
+                    bad("trunc-spurious:sticky-after-refused-candidate", "%s: the message fits, but the call returned MPI_ERR_TRUNCATE; the larger "
+                        "messages %s also fit the pattern of this receive  [smpi/async-small-thresh:%d]" % (where, sticky, b.thr[0]))
+                else:
+                    bad("trunc-spurious:" + kind if rc == TRUNC else "recv-rc:" + kind, "%s: the message fits, but the call returned %s" % (where, rc))
         if "p" in o:        # probe + receive: the probe announces the message that the receive then gets
             pr = o["p"]
             if (pr["src"], pr["tag"]) != (o["src"], o["tag"]):
@@ -835,7 +869,7 @@ def judge(b, res, oc, E):
                     # the first message (or an earlier one with its tag, which SMPI's per-tag sequence numbers make it wait for) sits in
                     # the 'large' mailbox, the second one in the 'small' mailbox, which receives look at first
                     cause = "two-mailboxes:send-side"
-                elif (rbox(rb), rbox(ra), mailbox(b, a)) == ("small", "large", "small"):
+                elif (rbox(rb), rbox(ra)) == ("small", "large") and eager_size(b, a):
                     cause = "two-mailboxes:recv-side"
                 else:
                     cause = "other"
@@ -863,6 +897,14 @@ def judge(b, res, oc, E):
                 bad("iprobe:phantom", "rank %d: MPI_Iprobe%s announced (source %s, tag %s, count %s): no such message is ever sent to this rank"
                     % (p, b.show_pattern(op["k"]), rec["src"], rec["tag"], rec.get("count")))
     b.got = got
+    # ---- 5. the observed matching must be one of those the explorer found (all the matchings MPI allows, whatever the timing): this
+    # also covers what the local rules above cannot decide (e.g. the receive-side rule between messages of different senders)
+    if not oc.violations and got not in b.explorer.totals:
+        cause = b.two_mailbox_risk()
+        diff = {r: s_ for r, s_ in got.items() if all(t.get(r) != s_ for t in b.explorer.totals)}
+        bad("matching-not-allowed" + (":two-mailboxes:" + cause if cause else ""),
+            "the observed matching {receive: message} = %s is none of the %d matchings MPI allows for this program (pairs that occur in no "
+            "allowed matching: %s)" % (dict(sorted(got.items())), len(b.explorer.totals), diff))
 
 
 def _show_pattern(self, k):
